@@ -297,6 +297,42 @@ def run(ctx):
                 r6.check(w6 is None, "query-arm-always-infers-shard", "every way through the Query arm passes infer_shard (unless no automatic sharding key is configured)",
                          "a branch of the Query arm goes on to the next statement without deriving the shard (activity-based routing: a SELECT on a recently written table, or any SELECT while the database counts as initializing): "
                          "the statement runs on the shard the previous statement selected", "", w6 and inf6.describe_path(w6))
+    # the positions the router holds are those of the statement it looked at last. A Bind is hashed at those positions: the client looks the bound statement up (and has
+    # the router look at it again) unless that statement is the last one parsed - `some statement of this batch` is not enough: after Parse s1, Parse s2 the positions
+    # are s2's and Bind s1 is routed by a parameter that is not its key (D82)
+    pm = F.body("pgcat::client::Client::parse_message_of_bound_statement")
+    hb = F.body("pgcat::client::Client::handle::{closure#0}")
+    if pm is None or hb is None:
+        r6.missing("Client::parse_message_of_bound_statement / Client::handle")
+    else:
+        gets_ = [c for c in pm.calls("re:^std::collections::hash::map::HashMap::get$") if "prepared_statements" in {p_[1:] for o in origins(pm, c.args[0]) if o.kind in ("place", "param") for p_ in o.proj if p_.startswith(".")}]
+        isb = hb.calls("pgcat::query_router::QueryRouter::infer_shard_from_bind")
+        look = hb.calls("pgcat::client::Client::parse_message_of_bound_statement")
+        r6.check(bool(isb) and bool(look) and all(any(hb.dominates(l_.block, b_.block) for l_ in look) for b_ in isb), "bind-looks-its-statement-up", "every infer_shard_from_bind of Client::handle comes after the look-up of the bound statement",
+                 "a Bind is hashed at the recorded positions without the bound statement having been looked up")
+        if not gets_:
+            r6.missing("look-up of the bound statement in Client.prepared_statements")
+        else:
+            LAST = re.compile(r"(Iterator::rev|DoubleEndedIterator::(next_back|rfind|rfold|rposition)|Iterator::last|VecDeque::back|::last)$")
+            skipped = []
+            for blk, i, st in pm.assigns():
+                rv_ = st["rv"]
+                if not (st["lhs"]["l"] == 0 and not st["lhs"]["p"] and rv_["k"] == "agg" and rv_.get("variant") == "None" and pm.dominates(gets_[0].block, blk) and blk in pm.reach([gets_[0].block])):
+                    continue
+                # a `?` on the look-up itself is not a skip: the statement is unknown
+                deps = pm.direct_control_deps(blk)
+                evid = set()
+                for sb, _t in deps:
+                    for o in origins(pm, pm.blocks[sb]["term"]["op"], taint=True):
+                        if o.kind == "call":
+                            evid.add(o.call.name)
+                if not deps:
+                    continue
+                if not any(LAST.search(n_) for n_ in evid):
+                    skipped.append((blk, sorted(x.split("::")[-1] for x in evid)))
+            r6.check(not skipped, "bind-routed-by-its-own-statement", "the look-up of a known statement is skipped only on evidence about the last Parse of the batch (a reverse walk / last element of the buffered messages)",
+                     "Client::parse_message_of_bound_statement gives up on a known statement on evidence that is not about the last statement parsed (%s): after `Parse s1 (id = $1 ..), Parse s2 (.. id = $2)` the router holds "
+                     "s2's key positions, `Bind s1` is not looked at again and is hashed at position 2 - the statement runs on the shard of a value that is not its key" % skipped[:2])
     # every key the statement mentions takes part: the routines that collect keys from the AST (rows of VALUES, conjuncts of WHERE, assignments,
     # the parameters of a Bind) walk their collections in full - an iterator over the AST that is cut short (take / skip / step_by / take_while /
     # skip_while) leaves keys unseen: `INSERT .. VALUES (1, ..), (2, ..)` routed by its first row alone runs the second row on the wrong shard
